@@ -30,6 +30,16 @@ func init() {
 	for _, v := range []int64{0, 1, -1, 2, -2, 10, -10, 100, 1000, 85, 42} {
 		addI(v)
 	}
+	// vint size boundaries: a zig-zag vint grows by one byte at |v| = 2^(7k-1) (64, 8192, 2^20, ...), an
+	// unsigned one at 2^(7k)
+	for _, k := range []uint{6, 13, 14, 20, 21, 27, 28, 34, 35, 41, 42, 48, 49, 55, 56, 62} {
+		p := pow2(k)
+		for _, d := range []int64{-1, 0, 1} {
+			v := new(big.Int).Add(p, big.NewInt(d))
+			add(v)
+			add(new(big.Int).Neg(v))
+		}
+	}
 	for _, k := range []uint{7, 8, 15, 16, 24, 31, 32, 53, 63, 64, 100, 127, 128} {
 		p := pow2(k)
 		for _, d := range []int64{-2, -1, 0, 1, 2} {
@@ -478,7 +488,9 @@ func (t *cql) strBounds() []string {
 	}
 	var out []string
 	garbage := []string{"", " ", "-", "+", "--1", "+-1", "1e3", "1E3", "1e0", "0x10", "0b1", "0o7", "1_000", " 1", "1 ", "\t1", "1\n", "1.0", "1.", ".5",
-		"٣", "１２", "NaN", "Inf", "-Inf", "nil", "0x", "1,000", "1 000", "-0", "+0", "0", "00", "-00", "+007", "-007"}
+		"٣", "１２", "NaN", "Inf", "-Inf", "nil", "0x", "1,000", "1 000", "-0", "+0", "0", "00", "-00", "+007", "-007",
+		"1e30", "-1e20", "1e2", "1.5e1", "15e-1", "36893488147419103233.0", "-36893488147419103233.0", "12345678901234567890123e0",
+		"9007199254740993.0", "100000000000000000000000000000000000e-5", "127.0", "128.0", "-129.000", "2147483648e0", "9223372036854775807.0", "9223372036854775808.0"}
 	switch {
 	case t.kind == kF32 || t.kind == kF64 || t.kind == kDur:
 		out = append(out, "0", "1", "1.5", "-1", "NaN", "1e3", "")
